@@ -115,20 +115,16 @@ Example ex_clone :
   schema_obs_eq ex_pv ex_exec ex_sub ((fun d : nat => d) ((fun d => S d) ((fun d => d) 5%nat))) ((fun d : nat => d) 5%nat).
 Proof. repeat split. Qed.
 
-(** the two struct decoders on a non-canonical object: member names in other letter cases, an
-    explicit null, unsorted variables, an extensions member, an unknown member *)
+(** a non-canonical object (member names in other letter cases, an explicit null, unsorted
+    variables, an extensions member, an unknown member) read as POST body and as socket payload *)
 Definition ex_alias : list (bytes * json) :=
   [ (b "QUERY", JStr (b "{a}")); (b "operationname", JNull);
     (b "Variables", JObj [(b "z", JNum 4607182418800017408%N); (b "a", JNull)]);
     (b "extensions", JObj []); (b "zzz", JArr [JBool true]) ].
-Example ex_alias_hyps :
-  fold_members StdJson ex_alias = fold_members Jsoniter ex_alias /\
-  has_range (JObj ex_alias) = false /\ single_string_members (fold_members StdJson ex_alias) = true.
-Proof. split; [|split]; vm_compute; reflexivity. Qed.
 Example ex_alias_agree :
   option_map body_op (decode_struct StdJson true (JObj ex_alias)) =
   Some {| o_query := b "{a}"; o_vars := Some [(b "a", JNull); (b "z", JNum 4607182418800017408%N)]; o_opname := [] |}
-  /\ option_map body_op (decode_struct Jsoniter false (JObj ex_alias)) = option_map body_op (decode_struct StdJson true (JObj ex_alias)).
+  /\ option_map body_op (decode_struct StdJson false (JObj ex_alias)) = option_map body_op (decode_struct StdJson true (JObj ex_alias)).
 Proof. split; vm_compute; reflexivity. Qed.
 
 (** ** stage B: the byte-level theorems.  A number layer that knows one number: 7 *)
@@ -159,7 +155,7 @@ Example ex_bytes_body :
 Proof. split; vm_compute; reflexivity. Qed.
 
 Example ex_roundtrip_bytes : forall t, carries t ex_o = true ->
-  decode fixed (JsonText.parse_text StdJson ex_numval) (JsonText.parse_text Jsoniter ex_numval)
+  decode fixed (JsonText.parse_text StdJson ex_numval) (JsonText.parse_text StdJson ex_numval)
          (encode (JsonText.print ex_numprint) t (b "1") ex_o) = Some (ex_o, None).
 Proof.
   intros t Ct. destruct ex_num_hyps as (H1 & H2 & H3 & H4).
@@ -171,3 +167,27 @@ Example ex_reader :
   JsonText.parse_text StdJson ex_numval (b " { ""aA\n"" : [ 7 , true , null , ""😀"" ] } ")
   = PTree (JObj [([97; 65; 10]%N, JArr [JNum seven; JBool true; JNull; JStr [240; 159; 152; 128]%N])]).
 Proof. vm_compute. reflexivity. Qed.
+
+(** valid UTF-8 is clean for encoding/json, a stray continuation byte or a surrogate encoded in UTF-8 is not *)
+Example ex_utf8 :
+  JsonTextProofs.sclean StdJson (b "é😀 日本") = true /\
+  JsonTextProofs.sclean StdJson [97; 255]%N = false /\ JsonTextProofs.sclean StdJson [237; 160; 128]%N = false.
+Proof. repeat split; vm_compute; reflexivity. Qed.
+
+(** ** the response side and the frame level: concrete bytes *)
+Example ex_ws_frames :
+  WireModel.frame_answer WsTransportWs (b "a<1") [b "{""data"":{""x"":1}}"] =
+  WireModel.WaFrames [ b "{""id"":""a\u003c1"",""type"":""next"",""payload"":{""data"":{""x"":1}}}";
+                       b "{""id"":""a\u003c1"",""type"":""complete""}" ]
+  /\ WireModel.frame_answer HttpGet (b "ignored") [b "{""data"":{""x"":1}}"] =
+     WireModel.WaHttp {| WireModel.hw_status := 200; WireModel.hw_ctype := b "application/json"; WireModel.hw_body := Some (b "{""data"":{""x"":1}}") |}.
+Proof. split; vm_compute; reflexivity. Qed.
+
+(** a frame as json.Unmarshal into Message reads it: names folded, later duplicates win, null keeps
+    the string, the payload's raw bytes; a number for the id, or bytes after the value: no message *)
+Example ex_frame_split :
+  FrameText.frame_of_text ex_numval (b " {""TYPE"":""x"",""payload"": [7 , {""a"":null}] ,""id"":null,""type"":""subscribe"",""extra"":7} ")
+  = Some {| f_type := b "subscribe"; f_id := []; f_payload := Some (b "[7 , {""a"":null}]") |}
+  /\ FrameText.frame_of_text ex_numval (b "{""id"":5,""type"":""subscribe""}") = None
+  /\ FrameText.frame_of_text ex_numval (b "{""type"":""subscribe""}}") = None.
+Proof. repeat split; vm_compute; reflexivity. Qed.
